@@ -20,19 +20,21 @@ Record dev := mkdev {
   dfail : option N;         (* the operation with this index fails once, without effect on the medium *)
   dlog : list fop;          (* modifying operations, newest first *)
   derr : option ferr;       (* last error reported by the device / the slot layer (propagated through the storages) *)
-  dpanic : bool }.          (* an assertion inside a storage adapter fired *)
+  dpanic : bool;
+  drh : N }.                (* running hash of the (address, length) of the reads performed (compared with the implementation's) *)          (* an assertion inside a storage adapter fired *)
 
-Definition set_mem d m lg := mkdev m (dtotal d) (dblk d) (dops d) (dfail d) lg (derr d) (dpanic d).
-Definition set_err d e := mkdev (dmem d) (dtotal d) (dblk d) (dops d) (dfail d) (dlog d) (Some e) (dpanic d).
-Definition set_panic d := mkdev (dmem d) (dtotal d) (dblk d) (dops d) (dfail d) (dlog d) (derr d) true.
+Definition set_mem d m lg := mkdev m (dtotal d) (dblk d) (dops d) (dfail d) lg (derr d) (dpanic d) (drh d).
+Definition set_err d e := mkdev (dmem d) (dtotal d) (dblk d) (dops d) (dfail d) (dlog d) (Some e) (dpanic d) (drh d).
+Definition set_panic d := mkdev (dmem d) (dtotal d) (dblk d) (dops d) (dfail d) (dlog d) (derr d) true (drh d).
+Definition mix_read d (a len : N) := mkdev (dmem d) (dtotal d) (dblk d) (dops d) (dfail d) (dlog d) (derr d) (dpanic d) ((drh d * 1000003 + a * 31 + len) mod 2305843009213693951).
 Definition tick d : bool * dev :=
   let f := match dfail d with Some k => k =? dops d | None => false end in
-  (f, mkdev (dmem d) (dtotal d) (dblk d) (dops d + 1) (if f then None else dfail d) (dlog d) (derr d) (dpanic d)).
+  (f, mkdev (dmem d) (dtotal d) (dblk d) (dops d + 1) (if f then None else dfail d) (dlog d) (derr d) (dpanic d) (drh d)).
 
 Definition d_read (d : dev) (a len : N) : dev * option N :=
   if dtotal d <? a + len then (set_err d EOob, None) else
   let '(f, d1) := tick d in
-  if f then (set_err d1 EHw, None) else (d1, Some (read (dmem d1) a len)).
+  if f then (set_err d1 EHw, None) else (mix_read d1 a len, Some (read (dmem d1) a len)).
 
 Definition d_prog (d : dev) (a len v : N) : dev * bool :=
   if dtotal d <? a + len then (set_err d EOob, false) else
@@ -536,10 +538,11 @@ Definition crash_mem (blk : N) (m : mem) (ops : list fop) (k : nat) (torn : opti
   | _, _ => m1
   end.
 
-Definition blank_dev (total blk : N) : dev := mkdev (fun _ => 255) total blk 0 None [] None false.
-Definition with_mem (d : dev) (m : mem) : dev := mkdev m (dtotal d) (dblk d) (dops d) None (dlog d) None false.
-Definition arm_fail (d : dev) (k : N) : dev := mkdev (dmem d) (dtotal d) (dblk d) (dops d) (Some (dops d + k)) (dlog d) (derr d) (dpanic d).
-Definition clear_flags (d : dev) : dev := mkdev (dmem d) (dtotal d) (dblk d) (dops d) (dfail d) (dlog d) None false.
+Definition blank_dev (total blk : N) : dev := mkdev (fun _ => 255) total blk 0 None [] None false 0.
+Definition with_mem (d : dev) (m : mem) : dev := mkdev m (dtotal d) (dblk d) (dops d) None (dlog d) None false 0.
+Definition arm_fail (d : dev) (k : N) : dev := mkdev (dmem d) (dtotal d) (dblk d) (dops d) (Some (dops d + k)) (dlog d) (derr d) (dpanic d) (drh d).
+Definition clear_flags (d : dev) : dev := mkdev (dmem d) (dtotal d) (dblk d) (dops d) (dfail d) (dlog d) None false (drh d).
+Definition reset_rh (d : dev) : dev := mkdev (dmem d) (dtotal d) (dblk d) (dops d) (dfail d) (dlog d) (derr d) (dpanic d) 0.
 (* direct manipulation of the medium, used to set up arbitrary flash contents (not a flash operation) *)
 Definition poke (d : dev) (a len v : N) : dev :=
-  mkdev (fun x => if (a <=? x) && (x <? a + len) then byte_of v (x - a) else dmem d x) (dtotal d) (dblk d) (dops d) (dfail d) (dlog d) (derr d) (dpanic d).
+  mkdev (fun x => if (a <=? x) && (x <? a + len) then byte_of v (x - a) else dmem d x) (dtotal d) (dblk d) (dops d) (dfail d) (dlog d) (derr d) (dpanic d) (drh d).
